@@ -283,8 +283,12 @@ func (r *Run) Finish() int {
 		ev["machinery_failures"] = r.Broken
 	}
 	b, _ := json.MarshalIndent(ev, "", " ")
-	os.MkdirAll(filepath.Join(VerifDir, "evidence"), 0755)
-	if err := os.WriteFile(filepath.Join(VerifDir, "evidence", r.Prop+".json"), b, 0644); err != nil {
+	evDir := filepath.Join(VerifDir, "evidence")
+	if os.Getenv("VERIF_REPO") != "" {
+		evDir = filepath.Join(evDir, "scratch") // experiment against a scratch checkout: not evidence
+	}
+	os.MkdirAll(evDir, 0755)
+	if err := os.WriteFile(filepath.Join(evDir, r.Prop+".json"), b, 0644); err != nil {
 		fmt.Fprintln(os.Stderr, "cannot write evidence:", err)
 		return 2
 	}
